@@ -6,7 +6,9 @@ the registered check of that property reported against it)."""
 import json, os, re, shutil, sys
 VERIF = os.path.dirname(os.path.dirname(os.path.abspath(__file__)))
 INC = os.path.join(VERIF, 'seeded', os.environ.get('SEEDED_INC', '_incoming'))
-ROUND = 'r2' if INC.endswith('2') else ''
+import re as _re
+_m = _re.search(r'(\d+)$', INC)
+ROUND = ('r' + _m.group(1)) if _m else ''
 NEED = re.compile(r'(?i)(what it needs|^\s*needs:|needed to manifest)')
 STOP = re.compile(r'^(#|\*\*[A-Z]|Commands|Verification|Demonstration|Demo\b|---|```)')
 
